@@ -5,7 +5,10 @@ import (
 	"fmt"
 	"sync"
 	"testing"
+	"testing/synctest"
 	"time"
+
+	"github.com/tsuna/gohbase/hrpc"
 
 	"github.com/tsuna/gohbase"
 	"pgregory.net/rapid"
@@ -30,6 +33,10 @@ type c20Phase struct {
 	Change       string `json:"change,omitempty"`
 	ChangeRegion int    `json:"change_region,omitempty"`
 	ChangeServer int    `json:"change_server,omitempty"`
+	// LateBatch: a SendBatch spanning two servers is in flight; the connection to one of
+	// them breaks and other traffic fails over first; only then does the batch get to see
+	// the errors of its calls on the old connection.
+	LateBatch bool `json:"late_batch,omitempty"`
 }
 
 type c20Case struct {
@@ -117,6 +124,12 @@ func c20RunInBubble(c c20Case) (out Outcome) {
 		}
 		if firstErr != nil {
 			return viol("request-failed", "phase %d: %v", pi, firstErr)
+		}
+		if ph.LateBatch {
+			if o := c20LateBatch(cl, client, c.Layout.Table, pi); o != nil {
+				return *o
+			}
+			anyFault = true
 		}
 		addr := addrs[((ph.FaultServer%len(addrs))+len(addrs))%len(addrs)]
 		switch ph.Fault {
@@ -229,6 +242,7 @@ func c20Gen(t *rapid.T) c20Case {
 		}
 		ph.Fault = rapid.SampledFrom([]string{"", "", "", "reset", "silent", "fatal"}).Draw(t, "fault")
 		ph.FaultServer = rapid.IntRange(0, 3).Draw(t, "faultserver")
+		ph.LateBatch = rapid.IntRange(0, 3).Draw(t, "latebatch") == 0
 		ph.Change = rapid.SampledFrom([]string{"", "", "split", "merge", "move"}).Draw(t, "change")
 		ph.ChangeRegion = rapid.IntRange(0, 11).Draw(t, "changeregion")
 		ph.ChangeServer = rapid.IntRange(0, 3).Draw(t, "changeserver")
@@ -249,4 +263,65 @@ func TestC20_OneConnection(t *testing.T) {
 			"each address is dialled exactly once; all requests succeed. Non-trivial = >= 2 regions of one server first "+
 			"used concurrently, or a failure followed by reuse; distinct by case hash")
 	Drive(t, rec, true, c20Gen, c20Run)
+}
+
+// c20LateBatch plays the late-error schedule; returns a violation or nil.
+func c20LateBatch(cl *sim.Cluster, client gohbase.Client, table string, pi int) *Outcome {
+	regs := cl.TableRegions(table)
+	var ra, rb *sim.Region
+	for _, r := range regs {
+		for _, q := range regs {
+			if r.Addr != q.Addr && q.Addr != cl.MetaAddr {
+				ra, rb = r, q
+			}
+		}
+	}
+	if ra == nil {
+		return nil // the layout has no two servers to span
+	}
+	mk := func(s string) string { return fmt.Sprintf("mklate%d%s", pi, s) }
+	for _, m := range []string{mk("a"), mk("b1"), mk("b2")} {
+		cl.Script[m] = []sim.Outcome{{Kind: "hold"}}
+	}
+	ctx := context.Background()
+	var calls []hrpc.Call
+	for _, x := range []struct {
+		r *sim.Region
+		m string
+	}{{ra, mk("a")}, {rb, mk("b1")}, {rb, mk("b2")}} {
+		call, _ := buildCall(ctx, table, opSpec{Kind: "get", Key: x.r.Start, Marker: x.m})
+		calls = append(calls, call)
+	}
+	done := make(chan struct{})
+	var results []hrpc.RPCResult
+	go func() {
+		defer close(done)
+		results, _ = client.SendBatch(ctx, calls)
+	}()
+	time.Sleep(30 * time.Millisecond) // flushed and held at both servers
+	synctest.Wait()
+	cl.KillConns(rb.Addr)
+	synctest.Wait()
+	// other traffic notices the dead connection and fails over
+	err, cerr := doOp(client, ctx, table, opSpec{Kind: "get", Key: rb.Start, Marker: mk("other")})
+	if err != nil || cerr != nil {
+		o := viol("request-failed", "late-batch phase %d: get after the connection broke: %v %v", pi, err, cerr)
+		return &o
+	}
+	synctest.Wait()
+	// now the slow server answers and the batch gets to its calls on the old connection
+	for _, m := range []string{mk("a"), mk("b1"), mk("b2")} {
+		cl.Release(m)
+	}
+	if !waitOrHorizon(done, 10*time.Minute) {
+		o := viol("request-stuck", "late-batch phase %d: SendBatch did not finish", pi)
+		return &o
+	}
+	for i, r := range results {
+		if r.Error != nil {
+			o := viol("request-failed", "late-batch phase %d: batch call %d: %v", pi, i, r.Error)
+			return &o
+		}
+	}
+	return nil
 }
